@@ -3,7 +3,10 @@ import props.C01 as c01
 RULE = ("2-3 authenticated sessions (distinct keys, fake transports, a real ClientConn each) on ONE real Server; every step a random session makes "
         "a random move of the C01 repertoire, and as an attacker injects on its own session responses carrying the ids of calls pending towards "
         "the OTHER peers, requests and empty envelopes; server calls to an unconnected key; each session's observations are replayed through the "
-        "single-session model on that session's own labels only; every server handler must see the key of the session its request came in on")
+        "single-session model on that session's own labels only; every server handler must see the key of the session its request came in on; "
+        "liveness of the other peers: while a write to peer A is parked (A does not drain: the reply to A's request, or a server call to A) and "
+        "after A answered one call with 3-5 copies of a slow-to-decode response, a call to B that B answers at once must succeed, an unanswered "
+        "call to B must end at its own deadline, OpenConnections / GetConnectedPeerPublicKeys must return, nothing may stay parked in the server")
 ASSUMPTIONS = c01.ASSUMPTIONS + ["authentication of the key itself is C03/C11 (here sessions are attached under their key as wshandler does after the handshake)"]
 FILES = c01.FILES + ["root/c04_test.go"]
 
